@@ -453,7 +453,7 @@ def schema_trees(ctx):
     cargo_build(ctx, "h_schema")
     n = ctx.pick(80, 1500)
     cmds = [([hbin("h_schema"), "trees", "--n", str(n), "--seed", str(ctx.seed * 1000 + i), "--depth", str(3 + i % 3)], f"trees-{i}.ndjson") for i in range(NSH)]
-    return trace_stage(ctx, "schema-trees", cmds, "Trace_Schema")
+    return trace_stage(ctx, "schema-trees", cmds, "Trace_Schema", require=["schema_big", "schema_tree:deep"])
 
 
 def schema_conform(ctx):
